@@ -177,3 +177,188 @@ Proof.
     pose proof (rel_reject (is_avr8l (dev (ctx_set_pc ca a))) op vs0 t (Z.of_N a) Hrel (N2Z.is_nonneg a) Hout) as Hr;
     rewrite N2Z.id, <- Hv in Hr; unfold process in Hproc; rewrite Hproc in Hr; discriminate.
 Qed.
+
+(** ---- no error is dropped: in a build that pass 2 accepts, EVERY item of EVERY segment was accepted by pass 2 ---- *)
+Theorem pass2_accepts_every_item fuel c segs r2 :
+  pass2 fuel c segs = Ok r2 ->
+  forall pre sg post ipre ci ipost, segs = (pre ++ sg :: post)%list -> items sg = (ipre ++ ci :: ipost)%list ->
+  exists st st', pass2_item fuel (seg_t sg) st ci = Ok st'.
+Proof.
+  intros H pre sg post ipre ci ipost -> Hit. rewrite pass2_unfold in H.
+  apply bind_ok in H. destruct H as (s & F & _).
+  rewrite fold_left_app in F. cbn [fold_left] in F.
+  pose proof (p2steps_ok _ _ _ _ F) as (sb & Eb).
+  pose proof (p2step_ok _ _ _ _ Eb) as ([[c0 code] eep] & Ea). rewrite Ea in Eb.
+  unfold p2step in Eb. cbn [bind] in Eb. apply bind_ok in Eb. destruct Eb as ([[c1 fin] frag] & Hf & _).
+  rewrite Hit in Hf. rewrite p2fold_app in Hf. unfold p2fold in Hf at 1. cbn [fold_left] in Hf.
+  fold (p2fold fuel (seg_t sg)) in Hf.
+  pose proof (fold_bind_ok _ _ _ _ Hf) as (sx & Ex).
+  destruct (p2fold fuel (seg_t sg) ipre (Ok (c0, address sg, []))) as [st| | |] eqn:Ep; cbn [bind] in Ex; try discriminate.
+  exists st, sx. exact Ex.
+Qed.
+
+Corollary pass2_encodes_every_instruction fuel c segs r2 :
+  pass2 fuel c segs = Ok r2 ->
+  forall pre sg post ipre cp op args ipost, segs = (pre ++ sg :: post)%list -> items sg = (ipre ++ (cp, IInstr op args) :: ipost)%list ->
+  exists cx pc bs, process fuel cx op args pc = Ok bs /\ check_instruction (dev cx) op args = true.
+Proof.
+  intros H pre sg post ipre cp op args ipost Hs Hit.
+  destruct (pass2_accepts_every_item fuel c segs r2 H pre sg post ipre _ ipost Hs Hit) as ([[c0 cur] out] & st' & E).
+  unfold pass2_item in E. cbn [fst] in E. destruct (check_instruction _ _ _) eqn:Ec; [|discriminate].
+  apply bind_ok in E. destruct E as (bs & Hb & _). apply with_line_ok in Hb. eauto.
+Qed.
+
+(** ... and the device it was gated by is THE device of the program (pass 2 never changes it) *)
+Lemma p2steps_dev fuel l : forall s s', fold_left (p2step fuel) l (Ok s) = Ok s' -> dev (p2ctx s') = dev (p2ctx s).
+Proof.
+  induction l as [|sg l IH]; intros s s' H; cbn [fold_left] in H.
+  - injection H as <-. reflexivity.
+  - pose proof (p2steps_ok _ _ _ _ H) as (s1 & E1). rewrite E1 in H. apply IH in H. rewrite H.
+    destruct s as [[c0 code] eep]. unfold p2step in E1. cbn [bind] in E1. apply bind_ok in E1.
+    destruct E1 as ([[c1 fin] frag] & Hf & E1). apply p2fold_dev in Hf.
+    assert (p2ctx s1 = c1) by (destruct (seg_t sg); injection E1 as <-; reflexivity). cbn [p2ctx]. congruence.
+Qed.
+
+Theorem pass2_gates_every_instruction fuel c segs r2 :
+  pass2 fuel c segs = Ok r2 ->
+  forall pre sg post ipre cp op args ipost, segs = (pre ++ sg :: post)%list -> items sg = (ipre ++ (cp, IInstr op args) :: ipost)%list ->
+  check_instruction (dev c) op args = true.
+Proof.
+  intros H pre sg post ipre cp op args ipost -> Hit. rewrite pass2_unfold in H.
+  apply bind_ok in H. destruct H as (s & F & _).
+  rewrite fold_left_app in F. cbn [fold_left] in F.
+  pose proof (p2steps_ok _ _ _ _ F) as (sb & Eb).
+  pose proof (p2step_ok _ _ _ _ Eb) as ([[c0 code] eep] & Ea). rewrite Ea in Eb.
+  pose proof (p2steps_dev _ _ _ _ Ea) as D0. cbn [p2ctx] in D0.
+  unfold p2step in Eb. cbn [bind] in Eb. apply bind_ok in Eb. destruct Eb as ([[c1 fin] frag] & Hf & _).
+  rewrite Hit in Hf. rewrite p2fold_app in Hf. unfold p2fold in Hf at 1. cbn [fold_left] in Hf.
+  fold (p2fold fuel (seg_t sg)) in Hf.
+  pose proof (fold_bind_ok _ _ _ _ Hf) as (sx & Ex).
+  destruct (p2fold fuel (seg_t sg) ipre (Ok (c0, address sg, []))) as [[[cp0 cur] out]| | |] eqn:Ep; cbn [bind] in Ex; try discriminate.
+  apply p2fold_dev in Ep.
+  unfold pass2_item in Ex. cbn [fst] in Ex. rewrite dev_set_pc in Ex.
+  destruct (check_instruction (dev cp0) op args) eqn:Ec; [|discriminate].
+  rewrite <- D0, <- Ep. exact Ec.
+Qed.
+
+(** ---- the same for ANY item pass 1 keeps (data directives, reservations, .set/.def): where its bytes land ---- *)
+Theorem kept_item_position fuel t : t <> SData -> forall ipre ci ipost c cur0 out0 c' fin out',
+  Forall plain (ipre ++ ci :: ipost) ->
+  p1fold t (ipre ++ ci :: ipost) (Ok (c, cur0, out0)) = Ok (c', fin, out') ->
+  (exists kpre kpost, out' = (out0 ++ kpre ++ kpost)%list /\ match snd ci with ILabel _ | IPragma _ => True | _ => False end) \/
+  exists a a' kpre ci' kpost, out' = (out0 ++ kpre ++ ci' :: kpost)%list /\ fst ci' = fst ci /\ cur0 <= a /\ a <= a' /\
+    (exists c1 o1 c1', pass1_item t (c1, a, o1) ci = Ok (c1', a', (o1 ++ [ci'])%list)) /\
+    forall c2 c2' fin2 frag, dev c2 = dev c ->
+      p2fold fuel t (kpre ++ ci' :: kpost) (Ok (c2, cur0, [])) = Ok (c2', fin2, frag) ->
+      exists ca ca' bs_pre bs bs_post,
+        frag = (bs_pre ++ bs ++ bs_post)%list /\ N.of_nat (length bs_pre) = unit_of t * (a - cur0) /\
+        N.of_nat (length bs) = unit_of t * (a' - a) /\ labels ca = labels c2 /\ dev ca = dev c2 /\
+        pass2_item fuel t (ca, a, bs_pre) ci' = Ok (ca', a', (bs_pre ++ bs)%list).
+Proof.
+  intros Ht ipre ci ipost c cur0 out0 c' fin out' Hp H.
+  rewrite p1fold_app in H.
+  assert (Ea : exists sa, p1fold t ipre (Ok (c, cur0, out0)) = Ok sa) by (unfold p1fold in H |- *; eapply fold_bind_ok; exact H).
+  destruct Ea as ([[ca a] outa] & Ea). rewrite Ea in H. unfold p1fold in H. cbn [fold_left bind] in H.
+  pose proof (fold_bind_ok _ _ _ _ H) as ([[cb a'] outb] & Eb). rewrite Eb in H.
+  apply Forall_app in Hp. destruct Hp as (Hp1 & Hp2). inversion Hp2 as [|? ? Hpi Hp3]; subst.
+  destruct (items_agree fuel _ Ht _ _ _ _ _ _ _ Hp1 Ea) as (Da & La & kpre & -> & Hpre).
+  destruct (items_agree fuel _ Ht _ _ _ _ _ _ _ Hp3 H) as (Dz & Lz & kpost & -> & Hpost).
+  pose proof (pass1_item_le _ _ _ _ _ _ _ _ Eb) as Hle.
+  destruct (item_agree fuel _ _ _ _ _ _ _ _ Eb Hpi) as (Db & Hcase).
+  destruct Hcase as [[(-> & ->) | (_ & Hsd)] | (ci' & -> & Hfst & Hci)]; [| contradiction |].
+  - (* nothing kept: a label or a pragma *)
+    left. exists kpre, kpost. split; [rewrite <- app_assoc; reflexivity|].
+    destruct ci as [cp it]. unfold pass1_item in Eb. cbn [fst snd] in *.
+    destruct it as [z | k ops | al e | al | al e | ops | op args | lab]; try exact I; exfalso.
+    all: try (destruct t; try discriminate; try contradiction).
+    all: try (destruct k).
+    all: repeat match type of Eb with
+                | bind ?m _ = Ok _ => apply bind_ok in Eb; destruct Eb as (? & _ & Eb)
+                | (if ?x then _ else _) = Ok _ => destruct x; try discriminate
+                | (match ?x with _ => _ end) = Ok _ => destruct x; try discriminate
+                end.
+    all: try discriminate.
+    all: injection Eb; intros;
+         match goal with Hq : (?l ++ [_])%list = ?l |- _ => apply (f_equal (@length _)) in Hq; rewrite app_length in Hq; cbn [length] in Hq; lia end.
+  - right. exists a, a', kpre, ci', kpost.
+    split; [rewrite <- !app_assoc; reflexivity|]. split; [exact Hfst|]. split; [exact La|]. split; [lia|].
+    split; [exists ca, (out0 ++ kpre)%list, cb; exact Eb|].
+    intros c2 c2' fin2 frag Hd H2.
+    rewrite p2fold_app in H2.
+    assert (E1 : exists s1, p2fold fuel t kpre (Ok (c2, cur0, [])) = Ok s1) by (unfold p2fold in H2 |- *; eapply fold_bind_ok; exact H2).
+    destruct E1 as ([[cx curx] outx] & E1). rewrite E1 in H2.
+    destruct (Hpre _ _ _ _ _ Hd E1) as (Dx & -> & bs_pre & Hbs & Lpre). cbn [app] in Hbs. subst outx.
+    pose proof (p2fold_labels _ _ _ _ _ _ _ _ _ E1) as (Lab & _ & _).
+    unfold p2fold in H2. cbn [fold_left bind] in H2.
+    pose proof (fold_bind_ok _ _ _ _ H2) as ([[cy cury] outy] & E2). rewrite E2 in H2.
+    assert (Dxa : dev cx = dev ca) by congruence.
+    destruct (Hci _ _ _ _ _ Dxa E2) as (Dy & -> & bs & -> & Lbs).
+    assert (Dyb : dev cy = dev cb) by congruence.
+    destruct (Hpost _ _ _ _ _ Dyb H2) as (_ & _ & bs_post & -> & _).
+    exists cx, cy, bs_pre, bs, bs_post. split; [rewrite <- app_assoc; reflexivity|]. split; [exact Lpre|]. split; [exact Lbs|].
+    split; [exact Lab|]. split; [exact Dx|]. exact E2.
+Qed.
+
+(** what pass 1 keeps of a data directive: the directive itself; in flash a .db list of odd length gets one zero byte more *)
+Definition padded (t : segt) (k : datadef) (l : list operand) : list operand :=
+  match t, k with SCode, Db => if actual_len l mod 2 =? 1 then (l ++ [PE (EConst 0)])%list else l | _, _ => l end.
+Lemma pass1_keeps_data t c cur out cp k l c' cur' out' :
+  pass1_item t (c, cur, out) (cp, IData k l) = Ok (c', cur', out') -> out' = (out ++ [(cp, IData k (padded t k l))])%list.
+Proof.
+  unfold pass1_item, padded. cbn [fst]. intros H.
+  destruct k, t; try discriminate;
+    repeat match type of H with
+           | bind ?m _ = Ok _ => apply bind_ok in H; destruct H as (? & _ & H)
+           end; injection H as _ _ <-; reflexivity.
+Qed.
+
+(** a data directive inside a whole program: its bytes, as pass 2 computes them from the operands at the directive's own
+    location, stand in the image at unit * that location *)
+Theorem data_lands fuel c segs r1 r2 :
+  pass1 c segs = Ok r1 -> pass2 fuel (p1_ctx r1) (p1_segs r1) = Ok r2 -> Forall plain_seg segs ->
+  2 * flash_size (dev c) < lim31 -> eeprom_size (dev c) < lim31 ->
+  forall pre sg post ipre cp k l ipost,
+    segs = (pre ++ sg :: post)%list -> seg_t sg <> SData -> items sg = (ipre ++ (cp, IData k l) :: ipost)%list ->
+  exists a ca before bs after,
+    (match seg_t sg with SCode => p2_code r2 | _ => p2_eeprom r2 end) = (before ++ bs ++ after)%list /\
+    N.of_nat (length before) = unit_of (seg_t sg) * a /\
+    labels ca = labels (p1_ctx r1) /\ dev ca = dev c /\
+    data_bytes fuel (ctx_set_pc ca a) k (padded (seg_t sg) k l) = Ok bs.
+Proof.
+  intros H1 H2 Hp Bf Be pre sg post ipre cp k l ipost Hsegs Hnd Hit.
+  destruct (layout fuel c segs r1 r2 H1 H2 Hp Bf Be) as (_ & _ & Hlay).
+  destruct (Hlay pre sg post Hsegs Hnd) as (sg2 & fin & c2 & c2' & frag & before & after & Hnth2 & Ht2 & _ & Hf & Himg & Lb & _ & (Hlab & _ & _) & Hdev).
+  subst segs. rewrite pass1_unfold in H1.
+  apply bind_ok in H1. destruct H1 as ([[[[c' co'] dofs'] eo'] out'] & F1 & H1).
+  destruct (flash_size (dev c) <? co'); [discriminate|]. destruct (eeprom_size (dev c) <? eo'); [discriminate|].
+  destruct (ram_size (dev c) <? dofs' - ram_start (dev c)); [discriminate|]. injection H1 as <-. cbn [p1_segs p1_ctx] in *.
+  rewrite fold_left_app in F1. cbn [fold_left] in F1.
+  pose proof (p1steps_ok _ _ _ F1) as ([[[[cb cob] dofsb] eob] outb] & Eb). rewrite Eb in F1.
+  pose proof (p1step_ok _ _ _ Eb) as ([[[[ca coa] dofsa] eoa] outa] & Ea). rewrite Ea in Eb.
+  apply Forall_app in Hp. destruct Hp as (Hp1 & Hp2). inversion Hp2 as [|? ? Hps Hp3]; subst.
+  destruct (passes_agree fuel _ _ _ _ _ _ _ _ _ _ _ Hp1 Ea) as (Da & _ & _ & npre & Hna & Lpre & _). cbn [app] in Hna. subst outa.
+  destruct (passes_agree fuel _ _ _ _ _ _ _ _ _ _ _ Hp3 F1) as (_ & _ & _ & npost & Hnz & _ & _).
+  unfold p1step in Eb. cbn [bind] in Eb. apply bind_ok in Eb. destruct Eb as ([[c1 fin1] sg'] & Hs & Eb).
+  assert (Hout : outb = (npre ++ [sg'])%list) by (destruct (seg_t sg); injection Eb as _ _ _ _ <-; reflexivity).
+  subst outb. clear Eb.
+  assert (Hsame : sg2 = sg').
+  { subst out'. rewrite <- app_assoc, nth_error_app2 in Hnth2 by lia. rewrite Lpre, Nat.sub_diag in Hnth2. cbn in Hnth2. congruence. }
+  subst sg2.
+  unfold pass1_segment in Hs. apply bind_ok in Hs. destruct Hs as (start & Hst & Hs).
+  apply bind_ok in Hs. destruct Hs as ([[cf fin'] outf] & Hfold & Hs). injection Hs as <- <- <-. cbn [address items seg_t] in *.
+  rewrite Hit in Hfold. unfold plain_seg in Hps. rewrite Hit in Hps. fold (p1fold (seg_t sg)) in Hfold.
+  destruct (kept_item_position fuel (seg_t sg) Hnd _ _ _ _ _ _ _ _ _ Hps Hfold)
+    as [(_ & _ & _ & Hfalse) | (a & a' & kpre & ci' & kpost & Hout & Hfst & La & La' & (cq & oq & cq' & Hq) & Hk)];
+    [cbn [snd] in Hfalse; contradiction|].
+  apply pass1_keeps_data in Hq. apply app_inv_head in Hq. injection Hq as ->.
+  cbn [app] in Hout. subst outf.
+  assert (Hd2 : dev c2 = dev ca) by congruence.
+  destruct (Hk _ _ _ _ Hd2 Hf) as (cx & cx' & bs_pre & bs & bs_post & -> & Lpre2 & _ & A & E & Hitem).
+  unfold pass2_item in Hitem. cbn [fst] in Hitem. apply bind_ok in Hitem. destruct Hitem as (bs' & Hb & Hitem).
+  apply with_line_ok in Hb. apply bind_ok in Hitem. destruct Hitem as (ax & _ & Hitem). injection Hitem as _ _ Happ.
+  apply app_inv_head in Happ. subst bs'.
+  exists a, cx, (before ++ bs_pre)%list, bs, (bs_post ++ after)%list.
+  split; [rewrite Himg, <- !app_assoc; reflexivity|].
+  split; [rewrite app_length, Nat2N.inj_add, Lb, Lpre2; destruct (seg_t sg); cbn [unit_of]; lia|].
+  split; [congruence|]. split; [congruence|]. exact Hb.
+Qed.
